@@ -3,6 +3,9 @@
 import json, subprocess
 ALL = ["C%02d" % i for i in range(1, 21)]
 CLAIMED = {
+ "C03": dict(level="exploration", technique="differential runtime oracle: Location.Query and rule-condition evaluation inside ProcessEvent vs a reference query evaluator on generated query programs",
+   text="Generated query trees (and/or/not/pattern/code, shortCircuit, empty operators, shared variables, inherited facts) are executed by the real engine through two entry points and compared as multisets of bindings with an evaluator written from the property statement; held-on-K-programs assurance for a compositional-semantics claim.",
+   note="Trusts lib/ref.Eval and lib/ref.Match; code leaves restricted to a family with known value; facts are flat (scalars and scalar arrays).", ref="§5 C03"),
  "C10": dict(level="exploration", technique="runtime monitor with a per-id lifecycle state-machine model: ProcessEvent action values (version tags), RuleEnabled, ListRules and the disabled-location error matrix checked after every step of generated walks",
    text="Generated walks through add/overwrite/remove/disable/enable/reload/location toggles are executed on real locations (both states, with and without a parent); after every step an event per rule id must run exactly the live, enabled, latest version; held-on-K-steps assurance for a safety property over all paths of the lifecycle machine.",
    note="Trusts the lifecycle model stated in DESIGN §5 C10 (flag belongs to the id); JavaScript actions return constant tags.", ref="§5 C10"),
